@@ -9,7 +9,9 @@ import (
 	"github.com/sirupsen/logrus"
 	appsv1 "k8s.io/api/apps/v1"
 	corev1 "k8s.io/api/core/v1"
+	k8serrors "k8s.io/apimachinery/pkg/api/errors"
 	metav1 "k8s.io/apimachinery/pkg/apis/meta/v1"
+	"k8s.io/apimachinery/pkg/runtime/schema"
 	"k8s.io/apimachinery/pkg/runtime"
 	"k8s.io/client-go/kubernetes/fake"
 	k8stesting "k8s.io/client-go/testing"
@@ -32,6 +34,7 @@ type k8sCase struct {
 	Replicas  *int32
 	Templates []string
 	PVCs      []string
+	UpdateFails string // "" | conflict | error : the StatefulSet update call is made to fail
 	// shards
 	Port int
 	Pods []k8sPod
@@ -63,6 +66,9 @@ func k8sGen(r *rand.Rand, i int, thorough bool) interface{} {
 	switch k := i % 5; {
 	case k <= 2:
 		c.Kind = "scale"
+		if r.Intn(5) == 0 {
+			c.UpdateFails = []string{"conflict", "error"}[r.Intn(2)]
+		}
 		c.Del = r.Intn(4) != 0
 		old := int32(r.Intn(maxN))
 		c.Expect = int32(r.Intn(maxN))
@@ -169,8 +175,18 @@ func k8sRun(in interface{}) (string, interface{}, map[string]int) {
 		if err != nil || len(ms) != 1 {
 			panic(fmt.Sprint("k8s harness: Replicas ", err, len(ms)))
 		}
-		if err := ms[0].ChangeScale(c.Expect); err != nil {
-			panic(err)
+		if c.UpdateFails != "" {
+			cli.PrependReactor("update", "statefulsets", func(action k8stesting.Action) (bool, runtime.Object, error) {
+				if c.UpdateFails == "conflict" {
+					return true, nil, k8serrors.NewConflict(schema.GroupResource{Group: "apps", Resource: "statefulsets"}, c.Set, fmt.Errorf("the object has been modified"))
+				}
+				return true, nil, fmt.Errorf("scripted API failure")
+			})
+			st["update_fails"]++
+		}
+		scaleErr := ms[0].ChangeScale(c.Expect)
+		if scaleErr != nil && c.UpdateFails == "" {
+			panic(scaleErr)
 		}
 		after, _ := cli.AppsV1().StatefulSets(ns).Get(context.TODO(), c.Set, metav1.GetOptions{})
 		pl, _ := cli.CoreV1().PersistentVolumeClaims(ns).List(context.TODO(), metav1.ListOptions{})
@@ -192,6 +208,10 @@ func k8sRun(in interface{}) (string, interface{}, map[string]int) {
 		}
 		term := fmt.Sprintf("KScale %s %s %s %s %s", cBool(c.Del), cStr(c.Set), cZ(int64(c.Expect)),
 			k8sCluster(c.Replicas, c.Templates, c.PVCs), k8sCluster(after.Spec.Replicas, tplAfter, left))
+		if c.UpdateFails != "" {
+			term = fmt.Sprintf("KScaleF true %s %s %s %s %s %s", cBool(c.Del), cStr(c.Set), cZ(int64(c.Expect)),
+				k8sCluster(c.Replicas, c.Templates, c.PVCs), k8sCluster(after.Spec.Replicas, tplAfter, left), cBool(scaleErr != nil))
+		}
 		return term, k8sObs{Replicas: after.Spec.Replicas, PVCs: left}, st
 	case "shards":
 		sts := &appsv1.StatefulSet{ObjectMeta: metav1.ObjectMeta{Name: c.Set, Namespace: ns},
